@@ -28,20 +28,32 @@ func VerifC12_Subscribe(h *zz.H) {
 		req.Request = &pb.SubscribeRequest_Poll{Poll: &pb.Poll{}}
 	default:
 		sl := &pb.SubscriptionList{Mode: mode, UpdatesOnly: h.Range("updates_only", 0, 1) == 1}
-		switch h.Range("prefix", 0, 2) {
+		lite := h.Param("LITE", 0) == 1
+		plo := 0
+		if lite {
+			plo = 2 // the shapes that reach the streaming code; the full shape space is the thorough tier
+		}
+		switch h.Range("prefix", plo, 2) {
 		case 0:
 		case 1:
 			sl.Prefix = &pb.Path{Target: h.Atom("target")}
 		default:
-			sl.Prefix = &pb.Path{Target: []string{c05DevA, "*"}[h.Range("known_target", 0, 1)], Origin: h.Atom("origin")}
-			if h.Range("prefix_elem", 0, 1) == 1 {
+			sl.Prefix = &pb.Path{Target: []string{c05DevA, "*"}[h.Range("known_target", 0, 1)]}
+			if !lite {
+				sl.Prefix.Origin = h.Atom("origin")
+			}
+			if !lite && h.Range("prefix_elem", 0, 1) == 1 {
 				sl.Prefix.Elem = []*pb.PathElem{{Name: h.Atom("prefix_elem")}}
 			}
 		}
 		ns := h.Range("nsubs", 0, 2)
 		for i := 0; i < ns; i++ {
 			sub := &pb.Subscription{}
-			switch h.Range("sub_path", 0, 3) {
+			slo, shi := 0, 3
+			if lite {
+				slo, shi = 1, 2
+			}
+			switch h.Range("sub_path", slo, shi) {
 			case 0: // nil path
 			case 1:
 				sub.Path = &pb.Path{}
@@ -56,15 +68,95 @@ func VerifC12_Subscribe(h *zz.H) {
 	}
 	polls := make(chan bool)
 	st := &vStream{ctx: context.Background(), h: h, first: req, polls: polls, block: mode == pb.SubscriptionList_STREAM}
+	synced := make(chan bool, 4)
+	st.onSend = func(r *pb.SubscribeResponse) error {
+		if vIsSync(r) {
+			select {
+			case synced <- true:
+			default:
+			}
+		}
+		return nil
+	}
 	done := make(chan bool, 1)
 	go func() { s.Subscribe(st); done <- true }()
-	go func() {
+	isSub := req.GetSubscribe() != nil
+	switch {
+	case isSub && mode == pb.SubscriptionList_STREAM:
+		// target data and lifecycle events reach the handler while it streams
+		select {
+		case <-synced: // registered and initial snapshot sent
+		case <-done: // the request was refused
+		}
 		c.GnmiUpdate(c04Upd("b", 5))
-		if h.Range("remove_target", 0, 1) == 1 {
+		c.GnmiUpdate(c04Del("b", 6))
+		lcs := []int{0, 1, 2}
+		if h.Param("LITE", 0) == 1 {
+			lcs = []int{0, 2}
+		}
+		switch lcs[h.Range("lifecycle", 0, len(lcs)-1)] {
+		case 1:
+			c.Reset(c05DevA)
+		case 2:
 			c.Remove(c05DevA)
 		}
-	}()
-	go func() { close(polls) }()
+	case isSub && mode == pb.SubscriptionList_POLL:
+		go func() {
+			select {
+			case <-synced:
+				close(polls)
+			case <-done:
+			}
+		}()
+	}
 	h.Quiesce()
 	h.Cover("handler quiescent or returned")
+}
+
+// VerifC12_MakeResponse: MakeSubscribeResponse on an arbitrary stored item and duplicate count.
+func VerifC12_MakeResponse(h *zz.H) {
+	c := cache.New([]string{c05DevA})
+	var opts []Option
+	if h.Range("no_dup_report", 0, 1) == 1 {
+		opts = append(opts, WithoutDupReport())
+	}
+	s, _ := NewServer(c, opts...)
+	var item interface{}
+	n := &pb.Notification{Timestamp: h.Int64("ts"), Prefix: &pb.Path{Target: c05DevA}, Atomic: h.Range("atomic", 0, 1) == 1}
+	nu := h.Range("nupd", 0, 2)
+	for i := 0; i < nu; i++ {
+		n.Update = append(n.Update, &pb.Update{Path: &pb.Path{Elem: []*pb.PathElem{{Name: h.Atom("upd")}}}, Val: vIntVal(h.Int64("v"))})
+	}
+	if h.Range("ndel", 0, 1) == 1 {
+		n.Delete = append(n.Delete, &pb.Path{Elem: []*pb.PathElem{{Name: h.Atom("del")}}})
+	}
+	switch h.Range("item", 0, 2) {
+	case 0:
+		item = n
+	case 1:
+		item = nil
+	default:
+		item = "not a notification"
+	}
+	dup := h.Uint32("dup")
+	before := n.GetUpdate()
+	var d0 uint32
+	if len(before) > 0 {
+		d0 = before[0].Duplicates
+	}
+	r, err := s.MakeSubscribeResponse(item, dup)
+	h.Cover("MakeSubscribeResponse returned")
+	if item == interface{}(n) {
+		h.Assert(err == nil && r.GetUpdate() != nil, "C12: a stored notification becomes a response")
+		if len(before) > 0 {
+			h.Assert(before[0].Duplicates == d0, "C12: the cached notification is never modified (it is shared across clients)")
+			if s.o.noDupReport || dup == 0 {
+				h.Assert(r.GetUpdate() == n, "C12: without a duplicate count the cached notification is sent as is")
+			} else {
+				h.Assert(r.GetUpdate().Update[0].Duplicates == dup, "C08: the response carries the duplicate count")
+			}
+		}
+	} else {
+		h.Assert(err != nil, "C12: an item that is not a notification is an error, not a panic")
+	}
 }
